@@ -234,6 +234,21 @@ func MetadataXML(v int) []byte {
 		if mv.Extras {
 			d.SingleLogoutServices = []saml.Endpoint{{Binding: saml.HTTPPostBinding, Location: Entities[mv.Entity] + "/slo", ResponseLocation: Entities[mv.Entity] + "/slo-done"}}
 			d.NameIDFormats = []saml.NameIDFormat{saml.EmailAddressNameIDFormat, saml.TransientNameIDFormat}
+			// what real SPs publish: attribute consuming services whose requested attributes
+			// come with and without NameFormat / FriendlyName / isRequired.  Their friendly
+			// names start with "req-" so that the subject comparison can tell them apart.
+			yes, no := true, false
+			basic := "urn:oasis:names:tc:SAML:2.0:attrname-format:basic"
+			ra := func(name, friendly, format string, required *bool) saml.RequestedAttribute {
+				return saml.RequestedAttribute{Attribute: saml.Attribute{Name: name, FriendlyName: friendly, NameFormat: format}, IsRequired: required}
+			}
+			d.AttributeConsumingServices = []saml.AttributeConsumingService{
+				{Index: 1, ServiceNames: []saml.LocalizedName{{Lang: "en", Value: "first"}},
+					RequestedAttributes: []saml.RequestedAttribute{ra("email", "req-email", basic, &yes), ra("uid", "", "", nil), ra("cn", "req-cn", "", &no)}},
+				{Index: 2, IsDefault: &yes, ServiceNames: []saml.LocalizedName{{Lang: "en", Value: "default"}},
+					RequestedAttributes: []saml.RequestedAttribute{ra("surname", "req-sn", "", &yes), ra("givenName", "req-gn", basic, nil), ra("uid", "req-uid", "", nil),
+						ra("email", "", "urn:oasis:names:tc:SAML:2.0:attrname-format:uri", &no), ra("telephone", "req-tel", "", nil)}},
+			}
 		}
 		e.SPSSODescriptors = append(e.SPSSODescriptors, d)
 	}
@@ -640,6 +655,20 @@ func (e *Env) NoteSessionID(id string) bool {
 	e.known[id] = true
 	e.Sessions = append(e.Sessions, id)
 	return true
+}
+
+// RegisteredXML is the metadata the running server holds for an entity ID, as XML ("" if
+// none), read through the public ServiceProviderProvider method.
+func (e *Env) RegisteredXML(entity string) string {
+	md, err := e.Server.GetServiceProvider(nil, entity)
+	if err != nil || md == nil {
+		return ""
+	}
+	b, err := xml.Marshal(md)
+	if err != nil {
+		return "marshal error: " + err.Error()
+	}
+	return string(b)
 }
 
 // SeedUser writes a user record directly into the store (pw < 0: no hash).
@@ -1235,6 +1264,15 @@ func ExpectedAttrs(name string, profile int) map[string][]string {
 
 // AttrsEqual compares attribute maps.
 func AttrsEqual(a, b map[string][]string) bool {
+	// attributes answering the SP's RequestedAttributes (friendly name "req-..." or none) are
+	// extras the subject clauses do not speak about
+	a2 := map[string][]string{}
+	for k, v := range a {
+		if k != "" && !strings.HasPrefix(k, "req-") {
+			a2[k] = v
+		}
+	}
+	a = a2
 	if len(a) != len(b) {
 		return false
 	}
